@@ -45,6 +45,8 @@ def to_lit(x):
     if isinstance(x, type):
         return {"__type__": x.__name__}
     if isinstance(x, tuple):
+        if len(x) == 3 and x[0] in ("and", "or", "xor") and x[1] is x[2]:
+            return {"__tuple__": [x[0], to_lit(x[1]), "__same__"]}       # one object as both operands
         return {"__tuple__": [to_lit(i) for i in x]}
     if isinstance(x, list):
         return [to_lit(i) for i in x]
@@ -64,7 +66,11 @@ def from_lit(x):
         if "__type__" in x:
             return _TYPES[x["__type__"]]
         if "__tuple__" in x:
-            return tuple(from_lit(i) for i in x["__tuple__"])
+            items = x["__tuple__"]
+            if len(items) == 3 and items[2] == "__same__" and items[0] in ("and", "or", "xor"):
+                left = from_lit(items[1])
+                return (items[0], left, left)
+            return tuple(from_lit(i) for i in items)
         if "__dict__" in x:
             return {from_lit(k): from_lit(v) for k, v in x["__dict__"]}
         if "__float__" in x:
